@@ -41,8 +41,50 @@ def body_overflow_guard(E, m, with_h, guard):
     E.prove(E.implies(E.all([E.no(anynan)]), E.no(E.isnan(obj))), 'guard:no-nan-out-without-nan-in')
 
 
+def body_nonfinite_model(E, n, with_h, proj):
+    """a non-finite model (NaN or +-inf in J / the constant term, e.g. after a 1e200 residual) never reaches the projected-gradient /
+    S-FISTA subproblem solvers: the zero step is handed back instead"""
+    from ..state import mk_controller
+    np = E.np
+    C, M, ghost, params = mk_controller(E, n, 1, n + 1, n + 1, with_h=with_h, with_save=False, objfun=None)
+    M.model_jac = E.mat('Jx', 1, n, xr=True)
+    M.model_const = E.vec('cx', 1, xr=True)
+    if proj:
+        M.projections = [lambda w: w, lambda w: w]
+        E.patch('dykstra', lambda P, x0, max_iter=100, tol=1e-10: x0.copy())
+    called = []
+
+    def solver_stub(name):
+        def f(xopt, g, H, *a, **k):
+            fin = E.all([E.isfinite(v) for v in E.flat(g)] + [E.isfinite(v) for v in E.flat(H)])
+            called.append((name, fin))
+            return E.vec('dS', n), E.vec('gS', n), E.real('crv')
+        return f
+    E.patch('ctrsbox_pgd', solver_stub('pgd'))
+    E.patch('ctrsbox_sfista', solver_stub('sfista'))
+    E.hooks(la=lambda name, args, kw: E.real('normH', lo=0) if name == 'norm2' else NotImplemented)
+    try:
+        d, gopt, H, gnew, crvmin = C.trust_region_step(params, E.real('crit', npy=False, lo=0))
+    except Exception as e:     # noqa
+        E.fail('nonfinite-model:trust_region_step-raises-' + type(e).__name__, detail=str(e)[:160])
+        return
+    for (name, fin) in called:
+        E.prove(fin, 'nonfinite-model:%s-never-called-with-a-non-finite-model' % name)
+    modelfin = E.all([E.isfinite(v) for v in E.flat(gopt)] + [E.isfinite(v) for v in E.flat(H)])
+    E.prove(E.implies(E.no(modelfin), E.all([d[i] == 0 for i in range(n)])), 'nonfinite-model:zero-step-handed-back')
+    E.reach('nonfinite-model:checked')
+
+
 def harnesses(tier, seed):
     hs = step.step_harnesses(tier, seed, 'C08')
+    for (with_h, proj) in ((False, True), (True, True), (True, False)):
+        for n in ([1] if tier == 'quick' else [1, 2]):
+            hs.append(Harness("nonfinite-model[n=%d,h=%d,projections=%d]" % (n, with_h, proj), 'dfverif.checks.c08', 'body_nonfinite_model',
+                              params=dict(n=n, with_h=with_h, proj=proj), cfg=core.Cfg(fork_queries=True, qtimeout_ms=30000),
+                              functions=['controller.Controller.trust_region_step', 'model.Model.build_full_model'],
+                              bounds="n=%d, m=1, model Jacobian and constant term NaN / +-inf / finite" % n,
+                              assumptions=["ctrsbox_pgd / ctrsbox_sfista stubbed: record whether they were handed a finite model"],
+                              expect=['nonfinite-model:zero-step-handed-back'], nproc=1))
     for h in c17.harnesses('quick', seed):
         if h.params['npt_so_far'] == h.params['num_pts'] and not h.params['with_h'] and \
                 h.params['op'] in ('save_point_abs', 'get_final_results', 'change_point', 'add_new_sample', 'add_new_point'):
